@@ -72,27 +72,17 @@ theorem C08_gap_test_matches_code (base : BitVec 32) (t pl : Nat) (ht : t < 2^31
     simp [this, hlt]
 
 /-- **Shutdown returned nil ⇒ everything was delivered first, in order, before closure.**
-In every reachable state (every interleaving, every fault pattern, every choice of what the write loop sends):
-if the Shutdown call of side `x` has returned nil and the transport under `x` did not fail, then
+In every reachable state (every interleaving, every fault pattern, every choice of what the write loop sends, Close /
+Abort / transport failure at any moment): if the Shutdown call of side `x` has returned nil, then
 (1) no message was accepted after the call, (2) every message `x` ever accepted has been handed to the peer's
 streams (it sits complete in a reassembly queue or has been read), (3) what the peer has read from each stream is
 a prefix, in order, of what `x` wrote to that stream, and (4) every stream of the peer on which closure has been
 reported had delivered ALL messages written to it before.
-
-`_partial`: the statement of C08 has no side condition ("When Shutdown returns without error, every message … has been
-delivered"), i.e. the same theorem WITHOUT the hypothesis `connFailed = false`:
-
-    theorem C08_shutdown_ok_implies_delivered (ops) (x) :
-      let s := Sys.init.run ops; (s.ep x).sd = 2 → ∀ w ∈ (s.ep x).snd.wlog, Got (s.ep (!x)).rcv w  (∧ order ∧ closure)
-
-That is false for the code as it is (and so for the model): `Shutdown` waits on closeWriteLoopCh only, which readLoop's
-exit path also closes when the LOCAL transport fails, so the call returns nil with data still queued — witness
-`C08_shutdown_nil_on_transport_failure_witness` below, replayed on the real code from
-corpus/C08/known/sd_shutdown_nil_on_local_transport_failure.ops. What is missing for the full statement is an error
-return of `Shutdown` on that path. -/
-theorem C08_shutdown_ok_implies_delivered_partial (ops : List Op) (x : Bool) :
+Full strength since the fix of D22 (`Shutdown` returns ErrShutdownIncomplete unless SHUTDOWN-ACK or SHUTDOWN-COMPLETE was
+received): before it this needed the hypothesis "the local transport did not fail". -/
+theorem C08_shutdown_ok_implies_delivered (ops : List Op) (x : Bool) :
     let s := Sys.init.run ops
-    (s.ep x).sd = 2 → (s.ep x).connFailed = false →
+    (s.ep x).sd = 2 →
       (s.ep x).snd.wlog.length = (s.ep x).callAt ∧
       (∀ w ∈ (s.ep x).snd.wlog, Got (s.ep (!x)).rcv w) ∧
       (∀ sid, (s.ep (!x)).rcv.readOn sid =
@@ -101,13 +91,27 @@ theorem C08_shutdown_ok_implies_delivered_partial (ops : List Op) (x : Bool) :
         (s.ep (!x)).rcv.readOn sid = (onStream (s.ep x).snd.wlog sid).map (·.1)) :=
   delivered_of_inv _ (run_inv ops) x
 
-/-- witness that the hypothesis `connFailed = false` of `C08_shutdown_ok_implies_delivered_partial` is needed: one message
-queued, Shutdown called, the local transport fails — the call has returned nil (sd = 2) and the message was never even
-sent, let alone delivered -/
-theorem C08_shutdown_nil_on_transport_failure_witness :
-    let s := Sys.init.run [.write false 0, .shutdown false, .closeConn false]
-    s.a.sd = 2 ∧ s.a.connFailed = true ∧ s.a.snd.wlog = [(0, 0, 0)] ∧ s.a.snd.pend = [(0, 0, 0)] ∧
-    s.b.rcv.store = [] ∧ s.b.rcv.rlog = [] ∧ s.ha.size = 0 := by decide
+/-- regression statement for D22 (the former witness): one message queued, Shutdown called, the local transport fails —
+the call now returns the error (sd = 3), not nil; the same for Close, and for Abort followed by the write-loop pass
+that sends the ABORT. Replayed on the real code from corpus/C08/sd_d22_shutdown_nil_on_transport_failure.ops. -/
+theorem C08_d22_transport_failure_reports_error :
+    (Sys.init.run [.write false 0, .shutdown false, .closeConn false]).a.sd = 3 ∧
+    (Sys.init.run [.write false 0, .shutdown false, .closeApi false]).a.sd = 3 ∧
+    (Sys.init.run [.write false 0, .shutdown false, .abort false, .gather false []]).a.sd = 3 ∧
+    (Sys.init.run [.write false 0, .shutdown false, .closeConn false]).b.rcv.store = [] := by decide
+
+/-- **An interrupted Shutdown reports it.** In every reachable state in which a Shutdown call of `x` is waiting and the
+peer's SHUTDOWN-ACK has not arrived: a transport failure, `Close`, or `Abort` (once the write loop has sent the ABORT,
+whatever else that pass was asked to send) makes the call return the error, never nil. -/
+theorem C08_interrupted_shutdown_reports_error (ops : List Op) (x : Bool) (d : List (List (Nat × Nat))) :
+    let s := Sys.init.run ops
+    (s.ep x).sd = 1 → (s.ep x).scp = false →
+      ((s.step (.closeConn x)).ep x).sd = 3 ∧ ((s.step (.closeApi x)).ep x).sd = 3 ∧
+      (((s.step (.abort x)).step (.gather x d)).ep x).sd = 3 ∧
+      ((s.step (.abort x)).step (.gather x d)).hist x = s.hist x ++ #[[Chunk.abort]] :=
+  fun h1 h2 => interrupted_of_inv _ (run_inv ops) x d h1 h2
+
+example : let s := Sys.init.run [.write false 0, .shutdown false]; (s.ep false).sd = 1 ∧ (s.ep false).scp = false := by decide
 
 /-- **Writes (and OpenStream) after Shutdown began are rejected.** In every reachable state in which a Shutdown
 call of side `x` has passed its state gate: no message has been accepted since, a write on any stream is
@@ -128,23 +132,23 @@ def demoOps : List Op :=
    .deliver true 0, .shutdown false, .write false 0, .gather false [], .deliver false 1, .gather true [], .deliver true 1,
    .gather false [], .deliver false 2, .read true 0, .read true 1]
 example : let s := Sys.init.run demoOps
-    (s.ep false).sd = 2 ∧ (s.ep false).connFailed = false ∧ (s.ep false).snd.wlog = [(0, 0, 0), (1, 1, 0)] ∧
+    (s.ep false).sd = 2 ∧ (s.ep false).snd.wlog = [(0, 0, 0), (1, 1, 0)] ∧
     (s.ep false).snd.attempts = 3 ∧ (s.ep true).rcv.rlog = [(0, 0, 0), (1, 1, 0)] ∧ (s.ep true).rcv.eofs = [(0, 1), (1, 1)] := by
   decide
 
 /-- SHUTDOWN and SHUTDOWN-ACK are only ever due or sent by a drained endpoint: in every reachable state an
 endpoint in SHUTDOWN-SENT or SHUTDOWN-ACK-SENT has nothing queued and nothing in flight, and a Shutdown call
-that has returned nil means the association is closed -/
+that has returned (nil or the error) means the association is closed -/
 theorem C08_shutdown_states_drained (ops : List Op) (x : Bool) :
     let s := Sys.init.run ops
     ((s.ep x).st = stShutdownSent ∨ (s.ep x).st = stShutdownAckSent →
       (s.ep x).snd.pend = [] ∧ (s.ep x).inflight = 0 ∧ (s.ep x).hasData = false) ∧
-    ((s.ep x).sd = 2 → (s.ep x).st = stClosed ∧ (s.ep x).dead = true) := by
+    ((s.ep x).sd = 2 ∨ (s.ep x).sd = 3 → (s.ep x).st = stClosed ∧ (s.ep x).dead = true) := by
   have inv := (run_inv ops x).1
   refine ⟨fun h => ?_, fun h => ?_⟩
   · obtain ⟨h1, h2⟩ := inv.ctl.drained h
     refine ⟨h1, by simp [Ep.inflight, h2], by simp [Ep.hasData, h1, h2]⟩
-  · have hd := (inv.ctl.sdRet h).1
+  · have hd := inv.ctl.sdDead h
     exact ⟨inv.ctl.deadSt.1 hd, hd⟩
 
 example : ((Sys.init.run [.write false 0, .gather false [[(0, 0)]], .deliver false 0, .ackt true, .gather true [], .deliver true 0,
@@ -180,18 +184,17 @@ theorem C08_stale_harmless (ops : List Op) (x : Bool) (i : Nat) :
     s'.ep x = s.ep x ∧ s'.hist x = s.hist x ∧ s'.hist (!x) = s.hist (!x) ∧
     (∀ z, (s.ep z).st ≠ stEstablished → (s'.ep z).st ≠ stEstablished) ∧
     (∀ z, (s.ep z).st = stClosed → (s'.ep z).st = stClosed) ∧
-    (∀ z, (s'.ep z).sd = 2 → (s'.ep z).connFailed = false → ∀ w ∈ (s'.ep z).snd.wlog, Got (s'.ep (!z)).rcv w) :=
+    (∀ z, (s'.ep z).sd = 2 → ∀ w ∈ (s'.ep z).snd.wlog, Got (s'.ep (!z)).rcv w) :=
   stale_of_inv _ (run_inv ops) x i
 
 /-! ## liveness on explicit schedules, for every message count -/
 
 /-- **Fault-free shutdown completes, for every number of messages.** Side A writes `n` messages, calls Shutdown with
 all of them still queued (SHUTDOWN-PENDING), the data drains under the shutdown one round trip per message, then
-SHUTDOWN, SHUTDOWN-ACK and SHUTDOWN-COMPLETE are exchanged: both sides end CLOSED, A's Shutdown has returned nil
-without a transport failure, and all `n` messages sit, in order, in B's stream ready to be read. -/
+SHUTDOWN, SHUTDOWN-ACK and SHUTDOWN-COMPLETE are exchanged: both sides end CLOSED, A's Shutdown has returned nil, and all `n` messages sit, in order, in B's stream ready to be read. -/
 theorem C08_fault_free_completes (n : Nat) :
     let s := Sys.init.run (schedule n ++ closingFaultFree n n)
-    s.a.dead = true ∧ s.a.st = stClosed ∧ s.a.sd = 2 ∧ s.a.connFailed = false ∧ s.b.dead = true ∧ s.b.st = stClosed ∧
+    s.a.dead = true ∧ s.a.st = stClosed ∧ s.a.sd = 2 ∧ s.b.dead = true ∧ s.b.st = stClosed ∧
     s.a.snd.wlog = M n ∧ s.a.callAt = n ∧ s.b.rcv.store = M n := by
   intro s
   have h := closing_fault_free (formR n n) (formR_ready n)
@@ -201,29 +204,29 @@ theorem C08_fault_free_completes (n : Nat) :
     rw [run_append, run_schedule]
   rw [hs]
   obtain ⟨d1, d2, d3, d4, d5, d6, d7, d8, d9⟩ := h
-  exact ⟨d1, d2, d3, by rw [d4]; rfl, d5, d6, by rw [d7]; rfl, by rw [d9]; rfl,
+  exact ⟨d1, d2, d3, d5, d6, by rw [d7]; rfl, by rw [d9]; rfl,
     by rw [d8]; exact List.take_of_length_le (by rw [M_length]; exact Nat.le_refl _)⟩
 
 /-- the same run for each single loss in the shutdown sequence, recovered by T2-shutdown, for every message count:
 (1) the first SHUTDOWN lost — T2 at the caller, SHUTDOWN sent again; (2) the SHUTDOWN-ACK lost — T2 at the caller, the
 retransmitted SHUTDOWN finds the peer in SHUTDOWN-ACK-SENT which answers again; (3) the SHUTDOWN-COMPLETE lost — the
 caller is closed and its Shutdown has returned nil, the peer retransmits SHUTDOWN-ACK to nobody and ends CLOSED when its
-transport closes. In all three: both sides CLOSED, Shutdown returned nil without transport failure at the caller, and
+transport closes. In all three: both sides CLOSED, Shutdown returned nil at the caller, and
 all `n` messages are in the peer's stream. -/
 theorem C08_recovers_from_single_losses (n : Nat) :
     (∀ tail ∈ [closingShutdownLost n n, closingAckLost n n, closingCompleteLost n n],
       let s := Sys.init.run (schedule n ++ tail)
-      s.a.dead = true ∧ s.a.st = stClosed ∧ s.a.sd = 2 ∧ s.a.connFailed = false ∧ s.b.dead = true ∧ s.b.st = stClosed ∧
+      s.a.dead = true ∧ s.a.st = stClosed ∧ s.a.sd = 2 ∧ s.b.dead = true ∧ s.b.st = stClosed ∧
       s.a.snd.wlog = M n ∧ s.b.rcv.store = M n) := by
   have key : ∀ tail, Done (formR n n) ((formR n n).run tail) →
       (let s := Sys.init.run (schedule n ++ tail)
-       s.a.dead = true ∧ s.a.st = stClosed ∧ s.a.sd = 2 ∧ s.a.connFailed = false ∧ s.b.dead = true ∧ s.b.st = stClosed ∧
+       s.a.dead = true ∧ s.a.st = stClosed ∧ s.a.sd = 2 ∧ s.b.dead = true ∧ s.b.st = stClosed ∧
        s.a.snd.wlog = M n ∧ s.b.rcv.store = M n) := by
     intro tail h
     show (let s := Sys.init.run (schedule n ++ tail); _)
     rw [run_append, run_schedule]
     obtain ⟨d1, d2, d3, d4, d5, d6, d7, d8, -⟩ := h
-    exact ⟨d1, d2, d3, by rw [d4]; rfl, d5, d6, by rw [d7]; rfl,
+    exact ⟨d1, d2, d3, d5, d6, by rw [d7]; rfl,
       by rw [d8]; exact List.take_of_length_le (by rw [M_length]; exact Nat.le_refl _)⟩
   have h1 := closing_shutdown_lost (formR n n) (formR_ready n)
   have h2 := closing_ack_lost (formR n n) (formR_ready n)
@@ -241,20 +244,17 @@ drained under its Shutdown, B calls Shutdown too before A's SHUTDOWN is on the w
 answered by SHUTDOWN-ACK, each of those by SHUTDOWN-COMPLETE: both sides CLOSED, BOTH Shutdown calls returned nil. -/
 theorem C08_crossed_shutdown_completes (n : Nat) :
     let s := Sys.init.run (schedule n ++ [.shutdown true] ++ closingCrossed n n)
-    s.a.dead = true ∧ s.a.st = stClosed ∧ s.a.sd = 2 ∧ s.a.connFailed = false ∧
-    s.b.dead = true ∧ s.b.st = stClosed ∧ s.b.sd = 2 ∧ s.b.connFailed = false := by
+    s.a.dead = true ∧ s.a.st = stClosed ∧ s.a.sd = 2 ∧ s.b.dead = true ∧ s.b.st = stClosed ∧ s.b.sd = 2 := by
   intro s
   have hs : s = ((formR n n).step (.shutdown true)).run (closingCrossed n n) := by
     show Sys.init.run (schedule n ++ [.shutdown true] ++ closingCrossed n n) = _
     rw [List.append_assoc, schedule_then, List.singleton_append, run_cons]
-  obtain ⟨hr, hsa, hsb, ha, -⟩ := formR_readyBoth n
+  obtain ⟨hr, hsa, hsb, -, -⟩ := formR_readyBoth n
   have h := closing_crossed _ hr
   rw [hsa, hsb] at h
-  obtain ⟨d1, d2, d3, d4, d5, d6, d7, d8⟩ := h
-  have hb : ((formR n n).step (.shutdown true)).b.connFailed = false := by
-    simp [Sys.step, Sys.ep, Sys.put, formR, shutdownCall, Ep.hasData, stEstablished]
+  obtain ⟨d1, d2, d3, -, d5, d6, d7, -⟩ := h
   rw [hs]
-  exact ⟨d1, d2, d3, by rw [d4, ha]; rfl, d5, d6, d7, by rw [d8, hb]⟩
+  exact ⟨d1, d2, d3, d5, d6, d7⟩
 
 /-- an instance of the schedules evaluated by the kernel (a test, `n = 1`) -/
 example : (Sys.init.run (schedule 1 ++ closingAckLost 1 1)).b.rcv.store = [(0, 0, 0)] := by decide
